@@ -48,7 +48,7 @@ func (f *Max) Call(s *slip.Scope, args slip.List, depth int) slip.Object {
 	}
 	pos++
 	for ; pos < len(args); pos++ {
-		arg, mx := slip.NormalizeNumber(args[pos], max)
+		arg, mx := normalizeForCompare(args[pos], max)
 		switch ta := arg.(type) {
 		case slip.Fixnum:
 			if mx.(slip.Fixnum) < ta {
